@@ -21,13 +21,14 @@ REPO = os.environ.get('PAMQP_REPO', '/repo')
 VERIF = os.path.dirname(os.path.dirname(os.path.abspath(__file__)))
 
 
-def native_calls(jobs, timeout=120):
+def native_calls(jobs, timeout=120, setup=None):
     """Run jobs on the real code under the pinned interpreter."""
     if not jobs:
         return []
     env = dict(os.environ)
     env['PYTHONPATH'] = '%s:%s' % (REPO, VERIF)
     env['PAMQP_VERIF'] = '1'
+    env['PAMQP_VERIF_SETUP'] = json.dumps(setup or {})
     try:
         p = subprocess.run([VENV_PY, '-W', 'ignore', '-m', 'pyvc.replay_runner'],
                            input='\n'.join(json.dumps(j) for j in jobs) + '\n',
@@ -274,6 +275,13 @@ def wire_corpus():
         for b in bodies[:4] if ch else bodies:
             out.append(frame(3, ch, b))
     out += [frame(8, ch, b'') for ch in (0, 1, 5, 65535)] + [b'AMQP\x00\x00\x09\x01', b'AMQP\x01\x01\x00\x09']
+    # protocol headers: followed by more buffered octets, cut short, with look-alike prefixes and with octets that are
+    # special to formatting code ('{', '}', '%')
+    for h in (b'AMQP\x00\x00\x09\x01', b'AMQP\x00\x00\x00\x00', b'AMQP\x00\x00\x00\x09', b'AMQP\x00\x00{\x01', b'AMQP\x00}\x00\x00',
+              b'AMQP\x00%s%d', b'AMQP{0}{}'):
+        out += [h + b'\x01', h + frame(8, 0, b''), h + b'\x00' * 9]
+        out += [h[:k] for k in range(4, 8)]
+    out += [b'AMQQ\x00\x00\x09\x01', b'A\x00\x01\x00\x00\x00\x01\x00\xce', b'AMQ', b'A', b'AMQp\x00\x00\x09\x01\x00']
     ack = _struct.pack('>IQB', 0x003C0050, 2 ** 63, 1)
     out += [frame(1, ch, ack) for ch in (0, 40000)]
     for s in ('\ufeffq', 'q', ''):
